@@ -41,6 +41,8 @@ fn streams() -> Vec<Stream> {
     vec![
         Stream { name: "random", count: (nt * 2_500, nt * 60_000), exhaustive: false, run: random },
         Stream { name: "random-large", count: (nt * 30, nt * 1_500), exhaustive: false, run: random_large },
+        Stream { name: "wide-index", count: (nt * 200, nt * 5_000), exhaustive: false, run: wide_index },
+        Stream { name: "fixed-tx-added-witnesses", count: (30_000, 800_000), exhaustive: false, run: fixed_tx_added },
         Stream { name: "body-masks", count: (1 << 18, 1 << 18), exhaustive: true, run: body_masks },
         Stream { name: "witness-masks", count: (64 * 8, 64 * 8), exhaustive: true, run: witness_masks },
         Stream { name: "aux-masks", count: (8 * 2 * 8, 8 * 2 * 8), exhaustive: true, run: aux_masks },
@@ -160,6 +162,120 @@ fn random(ctx: &mut Ctx, r: &mut Rng, i: u64) {
     let e = &rg[(i % rg.len() as u64) as usize];
     let (depth, coll) = if ctx.quick() { (r.below(5) as u32, 4) } else { (r.below(7) as u32, 6) };
     gen_and_check(ctx, r, e, depth, coll, None, None);
+}
+
+/// the index arguments the API takes wider than the wire grammar bounds them (u32 transaction / governance
+/// action indices above 65535, u64 redeemer indices above 2^32): whatever C03 says about emitting them, what
+/// was written must be read back
+fn wide_index(ctx: &mut Ctx, r: &mut Rng, i: u64) {
+    let rg = reg(ctx);
+    let e = &rg[(i % rg.len() as u64) as usize];
+    let mut g = G::new(r, 3, 3);
+    g.wide_index = true;
+    let v = match guard(|| (e.gen)(&mut g)) {
+        Ok(v) => v,
+        Err(p) => {
+            ctx.panic_seen(&p);
+            ctx.bucket("gen.constructor-panic");
+            return;
+        }
+    };
+    let tags = g.tags.clone();
+    check_value(ctx, e, v.as_ref(), &tags);
+}
+
+/// a decoded transaction with witnesses ADDED is a value built through the public API like any other: what
+/// it encodes to decodes to the same witnesses (the old ones and the added ones)
+fn fixed_tx_added(ctx: &mut Ctx, r: &mut Rng, _i: u64) {
+    use cardano_serialization_lib::*;
+    let mut g = G::new(r, 2, 3);
+    let (bytes, add_v, add_b) = match guard(|| {
+        let tx = g.transaction(false);
+        let nv = g.r.usize(3);
+        let nb = g.r.usize(3);
+        let add_v: Vec<Vkeywitness> = (0..nv).map(|_| g.vkeywitness()).collect();
+        let add_b: Vec<BootstrapWitness> = (0..nb).map(|_| g.bootstrap_witness()).collect();
+        (tx.to_bytes(), add_v, add_b)
+    }) {
+        Ok(x) => x,
+        Err(p) => {
+            ctx.panic_seen(&p);
+            return;
+        }
+    };
+    ctx.eval();
+    let mut ft = match guard(|| FixedTransaction::from_bytes(bytes.clone())) {
+        Ok(Ok(f)) => f,
+        _ => {
+            ctx.bucket("fixed-added.not-loaded");
+            return;
+        }
+    };
+    let enc = |w: &dyn Fn() -> Vec<u8>| guard(|| w()).unwrap_or_default();
+    let collect = |f: &FixedTransaction| -> Option<(Vec<Vec<u8>>, Vec<Vec<u8>>)> {
+        guard(|| {
+            let ws = f.witness_set();
+            let v = ws.vkeys().map(|x| (0..x.len()).map(|i| x.get(i).to_bytes()).collect()).unwrap_or_default();
+            let b = ws.bootstraps().map(|x| (0..x.len()).map(|i| x.get(i).to_bytes()).collect()).unwrap_or_default();
+            (v, b)
+        })
+        .ok()
+    };
+    let (mut want_v, mut want_b) = match collect(&ft) {
+        Some(x) => x,
+        None => return,
+    };
+    for w in &add_v {
+        if guard(|| ft.add_vkey_witness(w)).is_err() {
+            return;
+        }
+        let b = enc(&|| w.to_bytes());
+        if !want_v.contains(&b) {
+            want_v.push(b);
+        }
+    }
+    for w in &add_b {
+        if guard(|| ft.add_bootstrap_witness(w)).is_err() {
+            return;
+        }
+        let b = enc(&|| w.to_bytes());
+        if !want_b.contains(&b) {
+            want_b.push(b);
+        }
+    }
+    let out = match guard(|| ft.to_bytes()) {
+        Ok(b) => b,
+        Err(p) => {
+            ctx.panic_seen(&p);
+            return;
+        }
+    };
+    ctx.nontrivial_bytes("fixed-added", &out);
+    match guard(|| FixedTransaction::from_bytes(out.clone())) {
+        Ok(Ok(back)) => {
+            let (mut got_v, mut got_b) = match collect(&back) {
+                Some(x) => x,
+                None => return,
+            };
+            let (mut wv, mut wb) = (want_v.clone(), want_b.clone());
+            got_v.sort();
+            got_b.sort();
+            wv.sort();
+            wb.sort();
+            if got_v != wv {
+                ctx.violation("FixedTransaction/from_bytes(to_bytes)/vkey-witnesses-differ-after-adding", json!({"input": hx(&bytes), "added_vkeys": add_v.len(), "added_bootstraps": add_b.len(), "encoded": hx(&out), "decoded": got_v.len(), "expected": wv.len()}));
+            } else if got_b != wb {
+                ctx.violation("FixedTransaction/from_bytes(to_bytes)/bootstrap-witnesses-differ-after-adding", json!({"input": hx(&bytes), "added_vkeys": add_v.len(), "added_bootstraps": add_b.len(), "encoded": hx(&out), "decoded": got_b.len(), "expected": wb.len()}));
+            } else {
+                ctx.bucket("fixed-added.roundtrip-ok");
+                if !add_b.is_empty() && want_b.len() > add_b.len() {
+                    ctx.bucket("fixed-added.bootstrap-added-to-existing-bootstraps");
+                }
+            }
+        }
+        Ok(Err(e)) => ctx.violation("FixedTransaction/from_bytes(to_bytes)/error-after-adding-witnesses", json!({"input": hx(&bytes), "encoded": hx(&out), "error": format!("{:?}", e)})),
+        Err(p) => ctx.violation(&p.sig_at("FixedTransaction/from_bytes(to_bytes)"), json!({"encoded": hx(&out)})),
+    }
 }
 
 fn random_large(ctx: &mut Ctx, r: &mut Rng, i: u64) {
